@@ -129,6 +129,7 @@ func repoSkip(rel string, isDir bool) bool {
 func buildKey() string {
 	h := sha256.New()
 	hashTree(h, repoRoot, repoSkip)
+	fmt.Fprintf(h, "gcflags=%s\n", os.Getenv("VSIM_GCFLAGS"))
 	for _, d := range []string{"vsimrt", "harness", "instrument"} {
 		fmt.Fprintf(h, "== %s\n", d)
 		hashTree(h, filepath.Join(verifRoot, d), func(rel string, isDir bool) bool { return false })
@@ -302,7 +303,12 @@ func ensureBuild(verbose bool) binaries {
 	}()
 	go func() {
 		defer wg.Done()
-		o2, e2 = run(vdir, env, goBin+"/go", "test", "-c", "-race", "-tags", "vsim", "-trimpath", "-o", filepath.Join(tmpOut, "harness.race.test"), "./internal/vsimharness")
+		args := []string{"test", "-c", "-race", "-tags", "vsim", "-trimpath"}
+		if g := os.Getenv("VSIM_GCFLAGS"); g != "" {
+			args = append(args, "-gcflags="+g)
+		}
+		args = append(args, "-o", filepath.Join(tmpOut, "harness.race.test"), "./internal/vsimharness")
+		o2, e2 = run(vdir, env, goBin+"/go", args...)
 	}()
 	wg.Wait()
 	must("compile harness", o1, e1)
@@ -522,9 +528,11 @@ func runWorker(bin string, job Job, watchdog time.Duration) *workerOut {
 	return wo
 }
 
-var frameRe = regexp.MustCompile(`^\s+(\S+)\(`)
+var frameRe = regexp.MustCompile(`^\s+(\S.*)\(\)\s*$`)
 
-// raceSignature: the pair of innermost frames inside vivid (not the simulator, not the harness) of the two accesses.
+// raceSignature: for each of the two accesses the innermost frame that is not the Go runtime or the simulator
+// shims. If that frame is harness code the access is the harness's own ("harness:..."); otherwise it is named
+// by its function inside vivid / go-quartz.
 func raceSignature(txt string) string {
 	var tops []string
 	lines := strings.Split(txt, "\n")
@@ -539,16 +547,21 @@ func raceSignature(txt string) string {
 					continue
 				}
 				fn := m[1]
-				if strings.Contains(fn, "kercylan98/vivid") && !strings.Contains(fn, "vsimharness") {
+				if strings.HasPrefix(fn, "runtime.") || strings.HasPrefix(fn, "vsimrt/") || strings.HasPrefix(fn, "sync.") || strings.HasPrefix(fn, "sync/atomic.") || strings.HasPrefix(fn, "internal/") {
+					continue
+				}
+				switch {
+				case strings.Contains(fn, "vsimharness"), strings.Contains(fn, ".Vsim"):
+					top = "harness:" + fn[strings.LastIndex(fn, "/")+1:]
+				case strings.Contains(fn, "kercylan98/vivid"):
 					fn = strings.TrimPrefix(fn, "github.com/kercylan98/vivid/")
-					fn = strings.TrimPrefix(fn, "internal/")
-					top = fn
-					break
+					top = strings.TrimPrefix(fn, "internal/")
+				case strings.Contains(fn, "reugn/go-quartz"):
+					top = fn[strings.Index(fn, "go-quartz/"):]
+				default:
+					top = "other:" + fn
 				}
-				if strings.Contains(fn, "reugn/go-quartz") {
-					top = fn
-					break
-				}
+				break
 			}
 			tops = append(tops, top)
 		}
@@ -786,6 +799,7 @@ type totals struct {
 	byClass   map[string]*failList
 	undecided []string
 	raceReports int
+	harnessRaces int
 }
 
 func newTotals() *totals {
@@ -896,8 +910,24 @@ func absorb(wo *workerOut, race bool, prop string, tot *totals, start int) int {
 		}
 		f.Res.Prop = prop
 		cls := prop + "/race " + rr.Sig
-		if !strings.Contains(rr.Sig, ".") { // no vivid frame at all: a harness/simulator problem, not a verdict
-			tot.undecided = append(tot.undecided, "race report without a vivid frame (harness bug?):\n"+rr.Text)
+		parts2 := strings.Split(rr.Sig, "|")
+		nHarness, nUnknown := 0, 0
+		for _, p := range parts2 {
+			if strings.HasPrefix(p, "harness:") {
+				nHarness++
+			}
+			if p == "?" || strings.HasPrefix(p, "other:") {
+				nUnknown++
+			}
+		}
+		if nHarness == len(parts2) || (nHarness > 0 && nHarness+nUnknown == len(parts2)) {
+			// both accesses are in harness code: not an access of the system under test; counted, not reported
+			tot.harnessRaces++
+			continue
+		}
+		if nHarness > 0 || nUnknown > 0 {
+			// one side is harness/unknown code touching vivid state: a harness bug, not a verdict
+			tot.undecided = append(tot.undecided, "race report between harness and vivid code (harness bug?):\n"+rr.Text)
 			continue
 		}
 		f.Res.Viol = &Violation{Class: cls, Msg: rr.Text}
@@ -1159,6 +1189,7 @@ func writeEvidence(prop, tier string, base uint64, spec checkSpec, t *totals, wa
 		"distinct_schedules":  len(t.hashes),
 		"runs_in_race_binary": t.raceRuns,
 		"race_reports":        t.raceReports,
+		"race_reports_inside_harness_only": t.harnessRaces,
 		"runs_with_preemption": t.preempted,
 		"scheduling_decisions": t.steps,
 		"simulated_seconds":   float64(t.simNs) / 1e9,
